@@ -47,9 +47,20 @@ def unHealthy : Nat := 2
 def epKey (e : Ep) : String :=
   e.ns ++ "/" ++ e.wl ++ "/" ++ e.addrs.headD "" ++ "/" ++ e.port
 
-/-- `slices.EqualUnordered` as coded: equal length and every element of the second in the first. -/
-def equalUnordered (a b : List String) : Bool :=
+/-- `slices.EqualUnordered` on the pinned tree (8d5216c): equal length and every element of the second
+    in the first - containment, not equality, when elements repeat. -/
+def equalUnorderedPinned (a b : List String) : Bool :=
   a.length == b.length && b.all (fun x => a.contains x)
+
+/-- The loop of the repaired `slices.EqualUnordered` (fix 8c9910a): every element of the second
+    slice uses up one occurrence in the first. -/
+def consume (pool : List String) : List String → Bool
+  | [] => true
+  | c :: t => pool.contains c && consume (pool.erase c) t
+
+/-- `slices.EqualUnordered` (repaired): equal length and the occurrences match. -/
+def equalUnordered (a b : List String) : Bool :=
+  a.length == b.length && consume a b
 
 /-- `IstioEndpoint.Equals`. -/
 def epEquals (a b : Ep) : Bool :=
